@@ -431,7 +431,7 @@ func derivesOnlyFromParam(v ssa.Value, p *ssa.Parameter) bool {
 func propC12(c *Ctx) {
 	l := c.L
 	defer func() {
-		rpu := c.Rule("param-used", "every named parameter of an unexported, directly called function of the compile pipeline is used: the module store and module map handed down to a compiler are not dropped on the way (module indexes stay in step with the VM's module cache)", 40)
+		rpu := c.Rule("param-used", "every named parameter that carries compile state (module store, symbol table, options, module map, compiler, constant pool) of an unexported, directly called function is used: the module store and module map handed down to a compiler are not dropped on the way (module indexes stay in step with the VM's module cache)", 8)
 		ruleParamUsed(c, rpu, func(p string) bool { return p == modPath })
 		rmk := c.Rule("map-key-agree", "every string-keyed map field of the package is accessed with keys of one form: a module stored under its name is looked up under that same name", 3)
 		ruleMapKeyAgree(c, rmk, func(p string) bool { return p == modPath })
@@ -552,7 +552,7 @@ func propC12(c *Ctx) {
 	ruleRollbackBoundary(c, rrbb)
 	rfs := c.Rule("fork-same-file", "a compiler forked for a function literal inherits the forking compiler's module path and module map unchanged: an import inside a function resolves as at the top level of the same file", 1)
 	ruleForkSameFile(c, rfs)
-	rod := c.Rule("operand-decode", "every multi-byte operand the VM reads (module indexes among them) is assembled big-endian from adjacent bytes, as the compiler encodes it", 10)
+	rod := c.Rule("operand-decode", "every multi-byte operand the VM reads (module indexes among them) is assembled big-endian from adjacent bytes, as the compiler encodes it", 3)
 	ruleOperandDecode(c, rod, vf, "")
 
 	// name-canonical: the file importer's module key is canonical
@@ -845,7 +845,7 @@ func propC10(c *Ctx) {
 	if _, fD := l.structField(modPath, "SymbolTable", "disabledBuiltins"); c.Anchor(rsow, "SymbolTable.disabledBuiltins", fD >= 0) {
 		ruleSetOwned(c, rsow, &symtabRoles{l: l, fDisabled: fD})
 	}
-	rpu := c.Rule("param-used", "every named parameter of an unexported, directly called function of the compile / eval pipeline is used: state handed down (the session's module store) is not dropped on the way", 40)
+	rpu := c.Rule("param-used", "every named parameter that carries compile / session state (module store, symbol table, options, module map, compiler, constant pool) of an unexported, directly called function is used: state handed down (the session's module store) is not dropped on the way", 8)
 	ruleParamUsed(c, rpu, func(p string) bool { return p == modPath })
 	rsa := c.Rule("save-all-paths", "after the VM run every path of Eval.Run to a return stores r.Locals and r.ModulesCache (also for a failing fragment)", 2)
 	ruleEvalSaveAllPaths(c, rsa, run, vmRunCall)
